@@ -380,15 +380,15 @@ class NodeTr:
                 self.err("== between %s and %s" % (tya, tyb), e)
             return (("(negb %s)" % r) if isinstance(op, ast.NotEq) else r, "bool")
         if isinstance(op, (ast.Lt, ast.LtE, ast.Gt, ast.GtE)):
-            ta, tya = self.ex(a, env, binds)
+            ta, tya = self.ex(a, env, binds)             # operands are evaluated left to right as written ...
             tb, tyb = self.ex(b, env, binds)
+            if isinstance(op, (ast.Gt, ast.GtE)):        # ... a > b is then read as b < a, a >= b as b <= a
+                ta, tya, tb, tyb = tb, tyb, ta, tya
+            strict = isinstance(op, (ast.Lt, ast.Gt))
             if tya == "nat" and tyb == "nat":
-                r = {ast.Lt: "(%s <? %s)", ast.LtE: "(%s <=? %s)", ast.Gt: "(%s <? %s)", ast.GtE: "(%s <=? %s)"}[type(op)]
-                if isinstance(op, (ast.Gt, ast.GtE)):
-                    ta, tb = tb, ta
-                return (r % (ta, tb), "bool")
-            if tya == "nat" and tyb == "optnat" and isinstance(op, ast.GtE):
-                return ("(optnat_le %s %s)" % (tb, ta), "bool")
+                return (("(%s <? %s)" if strict else "(%s <=? %s)") % (ta, tb), "bool")
+            if tya == "optnat" and tyb == "nat" and not strict:      # end <= state where end may be None (guarded)
+                return ("(optnat_le %s %s)" % (ta, tb), "bool")
             self.err("order comparison between %s and %s" % (tya, tyb), e)
         if isinstance(op, (ast.In, ast.NotIn)):
             r = self.membership(a, b, env, binds, e)
